@@ -183,8 +183,7 @@ func (matrix *SparseInt8Matrix) SLICE(rfrom, rto, cfrom, cto int) *SparseInt8Mat
   return &m
 }
 func (matrix *SparseInt8Matrix) AsSparseInt8Vector() *SparseInt8Vector {
-  if matrix.cols < matrix.colMax - matrix.colOffset ||
-    (matrix.rows < matrix.rowMax - matrix.rowOffset) {
+  if matrix.rows != matrix.rowMax || matrix.cols != matrix.colMax {
     n, m := matrix.Dims()
     v := nilSparseInt8Vector(n*m)
     for it := matrix.ConstIterator(); it.Ok(); it.Next() {
